@@ -173,4 +173,28 @@ def tractsToCsvRows (ts : List TractObj) (atts : List String) (nice : Bool) (fil
   let headers := !(fileExists && mode == "a")
   (if headers then [getHeaders atts nice] else []) ++ ts.map (fun t => (toList t atts).map (fun v => cellText (scrubCell v)))
 
+/-! ### pretty_desc -/
+
+/-- consecutive tracts with the same Twp/Rge, in order (`pretty_desc` groups only as far as the order allows) -/
+def groupConsecutive : List TractObj → List (Str × List TractObj)
+  | [] => []
+  | t :: rest =>
+    match groupConsecutive rest with
+    | (k, g) :: more => if k == t.trs.twp ++ t.trs.rge then (k, t :: g) :: more else (t.trs.twp ++ t.trs.rge, [t]) :: (k, g) :: more
+    | [] => [(t.trs.twp ++ t.trs.rge, [t])]
+
+/-- one tract's lines: `Sec <sec>: <desc>` with line breaks inside the description justified -/
+def prettyTract (wordSec jst : Str) (t : TractObj) : Str :=
+  S "\n" ++ wordSec ++ t.trs.sec.getD (S "None") ++ S ": " ++ pyReplace t.desc (S "\n") (S "\n" ++ jst)
+
+/-- `TractList.pretty_desc(word_sec, justify_linebreaks)`; `none` for an empty list -/
+def prettyDesc (ts : List TractObj) (wordSec : Str := S "Sec ") (justify : Option Str := none) : Option Str :=
+  if ts.isEmpty then none else
+  let jst := justify.getD (List.replicate (wordSec.length + 4) ' ')
+  some (pyStrip ((groupConsecutive ts).flatMap (fun kg =>
+    S "\n" ++ TRS.prettyTwprge (TRS.trsToDict (some kg.1)) ++ kg.2.flatMap (prettyTract wordSec jst))))
+
+/-- `Tract.quick_desc(delim)` -/
+def quickDesc (t : TractObj) (delim : Str := S ": ") : Str := t.trs.trs ++ delim ++ t.desc
+
 end PyTRS.Export
